@@ -231,10 +231,53 @@ func init() {
 		}
 		return r
 	}
+	// exact for every byte string: the library's own decoding loop, forking on the byte classes
 	m["unicode/utf8.RuneCountInString"] = func(ex *Exec, fr *frame, a []Value) Value {
 		s := a[0].(*Str)
-		ex.requireASCII(fr, s)
-		return ex.i64(int64(len(s.B)))
+		B := ex.B
+		in := func(b *Term, lo, hi uint64) bool {
+			return ex.X.Branch(B.And(B.Bin(OUle, B.Const(8, lo), b), B.Bin(OUle, b, B.Const(8, hi))))
+		}
+		n, i, ns := 0, 0, len(s.B)
+		for i < ns {
+			c := s.B[i]
+			n++
+			if in(c, 0, 0x7F) {
+				i++
+				continue
+			}
+			size, lo, hi := 1, uint64(0x80), uint64(0xBF)
+			switch {
+			case in(c, 0xC2, 0xDF):
+				size = 2
+			case in(c, 0xE0, 0xE0):
+				size, lo = 3, 0xA0
+			case in(c, 0xE1, 0xEC), in(c, 0xEE, 0xEF):
+				size = 3
+			case in(c, 0xED, 0xED):
+				size, hi = 3, 0x9F
+			case in(c, 0xF0, 0xF0):
+				size, lo = 4, 0x90
+			case in(c, 0xF1, 0xF3):
+				size = 4
+			case in(c, 0xF4, 0xF4):
+				size, hi = 4, 0x8F
+			}
+			if size == 1 || i+size > ns {
+				i++
+				continue
+			}
+			ok := in(s.B[i+1], lo, hi)
+			for k := 2; ok && k < size; k++ {
+				ok = in(s.B[i+k], 0x80, 0xBF)
+			}
+			if ok {
+				i += size
+			} else {
+				i++
+			}
+		}
+		return ex.i64(int64(n))
 	}
 }
 
